@@ -158,6 +158,34 @@ def ignored_options(fc, cls_fcs):
     return list(best)
 
 
+AMBIG_CODES = "NnRYKMSWBDHVr"
+
+
+def _chunk_no(task):
+    try:
+        return int(str(task["chunk"]).split("-")[-1])
+    except ValueError:
+        return 0
+
+
+def ambiguate(g, rng, before_first=False, inside=None):
+    """g.ref with one or two bases replaced by codes outside ACGT -> (sequence, positions).  By default one position strictly
+    between the first two sites (and one 2 - 5 bases before the first site); `inside` = (start, stop, k): k positions anywhere there."""
+    ref = list(g.ref)
+    pos = []
+    if inside is not None:
+        lo, hi, k = inside
+        pos = rng.sample(range(lo, hi), min(k, hi - lo))
+    else:
+        if len(g.sites) >= 2 and g.sites[1] - g.sites[0] >= 2:
+            pos.append(g.sites[0] + 1 + rng.randrange(g.sites[1] - g.sites[0] - 1))
+        if before_first and g.sites[0] >= 6:
+            pos.append(g.sites[0] - rng.randint(2, 5))
+    for q in pos:
+        ref[q] = rng.choice(AMBIG_CODES)
+    return "".join(ref), sorted(pos)
+
+
 def replay(task):
     wd = os.path.join(task["wd"], "chunk-%s" % task["chunk"])
     shutil.rmtree(wd, ignore_errors=True)
@@ -174,12 +202,16 @@ def replay(task):
         long_target = False
     g = bamgen.Geometry.build(rng0, refbase, flank=(10020, 10030)) if long_target else bamgen.Geometry.build(rng0, refbase)
     contigs = {g.contig: len(g.ref)}
-    fasta = bamgen.write_fasta(os.path.join(wd, "ref.fa"), {g.contig: g.ref})
+    # every second chunk: the FASTA spells a reference base BETWEEN the two sites (and, in a long target, one shortly
+    # before the first site) as N / an IUPAC code / lower-case n.  The reads are unchanged.  FindSnvs!PositionLocal: the
+    # records of the two sites are what they are with a plain reference.
+    fasta_ref, ambig = ambiguate(g, bamgen.seeded("c19amb", task["seed"], task["chunk"]), long_target) if _chunk_no(task) % 2 == 1 else (g.ref, [])
+    fasta = bamgen.write_fasta(os.path.join(wd, "ref.fa"), {g.contig: fasta_ref})
     if long_target:
         bed = bamgen.write_bed(os.path.join(wd, "targets.bed"), [(g.contig, g.sites[0] - 9999, g.sites[1] + 1)])
     else:
         bed = bamgen.write_bed(os.path.join(wd, "targets.bed"), [(g.contig, p, p + 1) for p in g.sites])
-    res = {"evals": 0, "states": 0, "mismatch": [], "nontrivial": 0, "ambiguous": 0, "cli": 0}
+    res = {"evals": 0, "states": 0, "mismatch": [], "nontrivial": 0, "ambiguous": 0, "cli": 0, "ambig_ref_chunks": 1 if ambig else 0}
 
     def report(kind, key, detail):
         if len(res["mismatch"]) < 60:
@@ -221,7 +253,7 @@ def replay(task):
         for c in classes:
             c["depth"] = [[list(c["depth"][k][p]) for p in range(2)] for k in range(nS)]
         cls_of = {j: ci for ci, c in enumerate(classes) for j in c["fc"]}
-        ctx = {"hist": hist, "sam": sams, "sites": g.sites, "ref": g.ref}
+        ctx = {"hist": hist, "sam": sams, "sites": g.sites, "ref": fasta_ref, "ambiguous_reference_positions": ambig}
         if n_seed:
             ctx["bulk"] = task["bulk"]
         flagged = any(a["flags"] or a["mapq"] < 30 for a in hist)
@@ -405,7 +437,9 @@ def record_random(task):
         rng = bamgen.seeded("c19rand", task["seed"], task["chunk"], it)
         g = bamgen.Geometry.build(rng, [rng.choice(BASES) for _ in range(4)])
         contigs = {g.contig: len(g.ref)}
-        fasta = bamgen.write_fasta(os.path.join(wd, "ref%d.fa" % it), {g.contig: g.ref})
+        # half of the iterations: one to three reference bases of the target (sites included) spelled N / IUPAC / n
+        fref = ambiguate(g, bamgen.seeded("c19randamb", task["seed"], task["chunk"], it), inside=(g.start, g.stop, 1 + it % 3))[0] if it % 2 == 1 else g.ref
+        fasta = bamgen.write_fasta(os.path.join(wd, "ref%d.fa" % it), {g.contig: fref})
         nS = rng.choice([2, 3])
         snp = {p: [g.ref[p]] * 3 + [b for b in BASES if b != g.ref[p]] for p in g.sites}
         paths = []
@@ -422,7 +456,7 @@ def record_random(task):
             if th["maf"][0] > 0:
                 th["maf"] = [0, 1] if rng.random() < 0.5 else th["maf"]
             tid += 1
-            out.append(_trace(tid, g.contig, g.start, g.stop, fasta, paths, fc, th, g.ref[g.start:g.stop]))
+            out.append(_trace(tid, g.contig, g.start, g.stop, fasta, paths, fc, th, fref[g.start:g.stop]))
     shutil.rmtree(wd, ignore_errors=True)
     return out
 
